@@ -72,10 +72,20 @@ Definition build_annotations (r : rdata) : list Z :=
   [if crosses r then 1 else 0; rstart r; rend r].
 
 (* ---------- _build_record_from_cross_origin ---------- *)
-(* returns the new sequence, the new feature list, and the parent's features as mutated
-   (with a flag: the feature object is shared with the new record) *)
+(* every part of an origin-crossing feature lies in the pre-origin or in the post-origin half of
+   the region: all(part.start >= region.start or part.end <= region.end) *)
+Definition in_wrapped_region (r : rdata) (l : loc) : bool :=
+  forallb (fun p => (rstart r <=? ps p) || (pe p <=? rend r)) l.
+
+(* the origin-crossing features of the record that are taken over (as copies) *)
+Definition cross_kept (r : rdata) (f : feat) : bool :=
+  bridges (floc f) && in_wrapped_region r (floc f).
+
+(* returns the new sequence and the new feature list; every feature of the new record is a copy
+   (slices copy; the origin-crossing features are rebuilt as new SeqFeatures with a copied
+   qualifier dict), so the parent's features are not touched *)
 Definition build_cross (r : rdata) (sq : list Z) (feats : list feat)
-  : res (list Z * list feat * list (feat * bool)) :=
+  : res (list Z * list feat) :=
   let N := zlen sq in
   let a := clamp N (rstart r) in
   let b := clamp N (rend r) in
@@ -84,22 +94,19 @@ Definition build_cross (r : rdata) (sq : list Z) (feats : list feat)
   let sq' := pyslice sq a N ++ pyslice sq 0 b in
   do post <- mapM (fun f => do l <- offset_location (floc f) (N - rstart r) (Some N);
                             Ok (set_loc f l)) post0;
-  do parent <- mapM (fun f => if bridges (floc f)
-                              then do l <- offset_location (floc f) (- rstart r) (Some N);
-                                   Ok (set_loc f l, true)
-                              else Ok (f, false)) feats;
-  let cross := map fst (filter snd parent) in
-  Ok (sq', pre ++ cross ++ post, parent).
+  do cross <- mapM (fun f => do l <- offset_location (floc f) (- rstart r) (Some N);
+                             Ok (set_loc f l)) (filter (cross_kept r) feats);
+  Ok (sq', pre ++ cross ++ post).
 
 (* ---------- _build_base_record ---------- *)
 Definition build_base (r : rdata) (sq : list Z) (feats : list feat)
-  : res (list Z * list feat * list (feat * bool)) :=
+  : res (list Z * list feat) :=
   if crosses r then build_cross r sq feats
   else
     let N := zlen sq in
     let a := clamp N (rstart r) in
     let b := clamp N (rend r) in
-    Ok (pyslice sq a b, slice_feats feats a b, map (fun f => (f, false)) feats).
+    Ok (pyslice sq a b, slice_feats feats a b).
 
 (* ---------- build_location_from_others on single parts (as used by _adjust_motif) ---------- *)
 Definition blo_step (location : loc) (p : part) : res loc :=
@@ -125,14 +132,16 @@ Definition build_location_from_parts (parts : list part) : res loc :=
   end.
 
 (* ---------- _adjust_motif ---------- *)
-Definition adjust_motif_loc (start : Z) (l : loc) : res loc :=
-  do parts <- mapM (fun p => mkFL (ps p - start) (pe p - start) (pst p)) l;
-  build_location_from_parts parts.
+(* every part is moved with offset_location(part, -region.start, wrap_point=len(record)) and the
+   parts of the results are collected *)
+Definition adjust_motif_loc (start N : Z) (l : loc) : res loc :=
+  do parts <- mapM (fun p => offset_location [p] (- start) (Some N)) l;
+  build_location_from_parts (concat parts).
 
-Definition adjust_motif_opt (start : Z) (o : option loc) : res (option loc) :=
+Definition adjust_motif_opt (start N : Z) (o : option loc) : res (option loc) :=
   match o with
   | None => Ok None
-  | Some l => do l' <- adjust_motif_loc start l; Ok (Some l')
+  | Some l => do l' <- adjust_motif_loc start N l; Ok (Some l')
   end.
 
 (* ---------- _adjust_features ---------- *)
@@ -167,9 +176,11 @@ Definition renum (first n : Z) : Z := n - first + 1.
 
 Definition adjust_feat (c : actx) (f : feat) : res feat :=
   if ftype f =? T_region then
+    (* subregion_numbers first, then (if there are any) candidate_cluster_numbers *)
+    let subs := map (renum (c_first_sub c)) (fq2 f) in
     match fq1 f with
-    | [] => Ok f
-    | q => Ok (set_q1 f (map (renum (c_first_cc c)) q))
+    | [] => Ok (set_q12 f [] subs)
+    | q => Ok (set_q12 f (map (renum (c_first_cc c)) q) subs)
     end
   else if ftype f =? T_cand then
     match fq1 f with
@@ -196,8 +207,8 @@ Definition adjust_feat (c : actx) (f : feat) : res feat :=
     | n :: _ => Ok (set_q1 f [renum (c_first_sub c) n])
     end
   else if ftype f =? T_motif then
-    do a <- adjust_motif_opt (c_start c) (fl1 f);
-    do b <- adjust_motif_opt (c_start c) (fl2 f);
+    do a <- adjust_motif_opt (c_start c) (c_len c) (fl1 f);
+    do b <- adjust_motif_opt (c_start c) (c_len c) (fl2 f);
     Ok (set_l12 f a b)
   else Ok f.
 
@@ -206,12 +217,7 @@ Record output := mkOut {
   o_seq : list Z; o_feats : list feat; o_annot : list Z;
   o_parent : list feat }.          (* the parent's features after the call *)
 
-(* the qualifier changes made through shared feature objects stay; locations are restored *)
-Definition parent_after_adjust (c : actx) (parent : list (feat * bool)) : list feat :=
-  map (fun fb : feat * bool => if snd fb
-                 then match adjust_feat c (fst fb) with Ok g => g | Err _ => fst fb end
-                 else fst fb) parent.
-
+(* "undo any location modifications": every parent feature gets the location saved at the start *)
 Fixpoint restore (feats : list feat) (locs : list loc) : list feat :=
   match feats, locs with
   | f :: fr, l :: lr => set_loc f l :: restore fr lr
@@ -221,12 +227,11 @@ Fixpoint restore (feats : list feat) (locs : list loc) : list feat :=
 Definition write_to_genbank (r : rdata) (sq : list Z) (feats : list feat) : res output :=
   let original_locations := map floc feats in
   do base <- build_base r sq feats;
-  let '(sq', rfeats, parent) := base in
+  let '(sq', rfeats) := base in
   do c <- make_ctx r (zlen sq);
   do adjusted <- mapM (adjust_feat c) rfeats;
   let annot := build_annotations r in
-  let parent' := parent_after_adjust c parent in
-  Ok (mkOut sq' adjusted annot (restore parent' original_locations)).
+  Ok (mkOut sq' adjusted annot (restore feats original_locations)).
 
 (* ---------- decidable specification, evaluated on an output (model's or implementation's) ---------- *)
 (* a region is never empty: start = end can only be the whole ring, cut at start *)
@@ -289,16 +294,11 @@ Definition spec_flags (r : rdata) (sq : list Z) (feats : list feat) (o : output)
     list_eqb Z.eqb (o_annot o) (build_annotations r) ].
 
 (* guards = hypotheses under which the corresponding flag is proved / expected (the complement
-   of each guard is a recorded finding class) *)
+   of the first guard is the recorded finding class whole_ring_region, of the numbering guard
+   wrapped_region_numbering) *)
 Definition adjustable (f : feat) : bool :=
   (ftype f =? T_region) || (ftype f =? T_cand) || (ftype f =? T_proto) || (ftype f =? T_core)
   || (ftype f =? T_sub) || (ftype f =? T_motif).
-
-Definition isSome_l (o : option loc) : bool := match o with Some _ => true | None => false end.
-
-(* a part lies in the pre-origin or in the post-origin half of a wrapped region *)
-Definition part_in_region (r : rdata) (N : Z) (p : part) : bool :=
-  ((rstart r <=? ps p) && (pe p <=? N)) || ((0 <=? ps p) && (pe p <=? rend r)).
 
 Definition contiguous (l : list Z) : bool :=
   match l with
@@ -328,18 +328,14 @@ Definition order_ok (r : rdata) (sq : list Z) (feats : list feat) : bool :=
   | Err _ => true
   end.
 
-(* [not the whole ring; partial cross-origin feature absent; numbering guard; motif guard; parent guard; -] *)
+(* [not the whole ring; -; numbering guard; -; -; -] *)
 Definition guard_flags (r : rdata) (sq : list Z) (feats : list feat) : list bool :=
-  let N := zlen sq in
-  let cross_feats := filter (fun f => bridges (floc f)) feats in
   [ negb (rstart r =? rend r);
-    negb (crosses r) || forallb (fun f => forallb (part_in_region r N) (floc f)) cross_feats;
+    true;
     contiguous (map fst (rcands r)) && contiguous (map fst (all_protos r)) && contiguous (rsubs r)
-      && (match rsubs r with [] => true | _ => lmin (rsubs r) =? 1 end)
       && order_ok r sq feats;
-    negb (crosses r) || forallb (fun f => negb (ftype f =? T_motif) || (rstart r <=? lstart (floc f))
-                                          || negb (isSome_l (fl1 f) || isSome_l (fl2 f))) feats;
-    negb (crosses r) || forallb (fun f => negb (adjustable f)) cross_feats;
+    true;
+    true;
     true ].
 
 (* ---------- flat encoding ---------- *)
